@@ -483,6 +483,7 @@ func (c *Ctx) bindEvent(env *Env, ev Event) {
 		}
 		return nil
 	}
+	env.curEvent = &ev
 	if ev.Recv != nil {
 		t := ev.RecvT
 		if t == nil {
